@@ -241,11 +241,9 @@ def _sum_wo_cat(a, axis=None, dtype=None):
     if dtype is None:
         dtype = getattr(np.zeros(1, dtype=a.dtype).sum(), "dtype", object)
 
-    if a.shape[axis] == 1:
-        from dask_array._collection import squeeze
-
-        return squeeze(a, axis=axis)
-
+    # No squeeze shortcut for a single block along the contraction axis: the
+    # block count is only known for the layout at construction time, and a
+    # rewrite of an operand may re-chunk it before the graph is built.
     return reduction(a, _chunk_sum, _chunk_sum, axis=axis, dtype=dtype, concatenate=False)
 
 
